@@ -376,6 +376,8 @@ class Rewriter:
         text = self.r1_logs(scope, text)
         if "R5" in u.rw:
             text = self.r5_ready(scope, text)
+        if "R3" in u.rw:
+            text = self.r3_pin(scope, text)
         for (rid, sc, old, new, cnt) in u.replaces:
             if sc != scope:
                 continue
@@ -404,6 +406,14 @@ class Rewriter:
                 e = k + 1
             self.note("R1", scope, text[mt.start():e], "")
             text = text[:mt.start()] + text[e:]
+
+    def r3_pin(self, scope, text):
+        for rx, new in ((r"\bmut\s+self\s*:\s*Pin<&mut Self>", "&mut self"), (r"\bself\s*:\s*Pin<&mut Self>", "&mut self"),
+                        (r"\bself\s*:\s*Pin<&mut\s+Self>", "&mut self")):
+            for mt in list(re.finditer(rx, text)):
+                self.note("R3", scope, mt.group(0), new)
+            text = re.sub(rx, new, text)
+        return text
 
     def r5_ready(self, scope, text):
         while True:
